@@ -212,6 +212,10 @@ class Component( ComponentLevel7 ):
     top._dsl.all_named_objects |= added_signals
     top._dsl.all_named_objects |= added_method_ports
 
+    # all_named_objects also holds the interfaces (see _collect_all_single)
+    added_interfaces = obj._collect_all_single( lambda x: isinstance( x, Interface ) )
+    top._dsl.all_named_objects |= added_interfaces
+
     for c in added_components:
       top._collect_vars( c )
 
@@ -305,6 +309,9 @@ class Component( ComponentLevel7 ):
 
       removed_connectables = removed_signals | removed_method_ports
       top._dsl.all_named_objects -= removed_connectables
+
+      removed_interfaces = foo._collect_all_single( lambda x: isinstance( x, Interface ) )
+      top._dsl.all_named_objects -= removed_interfaces
 
       removed_consts = set()
       if isinstance( foo, Placeholder ):
